@@ -597,6 +597,17 @@ class Sym:
             b1 = self.branch(lambda: self.ev_body(bt[-1], tail))
             b2 = self.branch(lambda: self.ev_body(bf[-1], tail))
             return self.join2(sc, b1, b2, at)
+        # match x { P if g => E, _ => {} }  ==  match x { P => if g { E }, _ => {} }
+        if len(arms) == 2 and arms[0][1].get("guard") and not arms[1][1].get("guard") and arms[1][2][0] == "pwild" \
+                and not callable(arms[1][-1]) and arms[1][-1][0] == "block" and len(arms[1][-1]) == 2:
+            g_node, body0 = arms[0][3], arms[0][-1]
+
+            def guarded(tail_, g_node=g_node, body0=body0):
+                c_ = self.ev(g_node)
+                b1 = self.branch(lambda: self.ev_body(body0, tail_))
+                b2 = ([], dict(self.env), ("unit",), False)
+                return self.join2(c_, b1, b2, at)
+            return self.ev_match_arms(scrut, [("arm", {}, arms[0][2], guarded), arms[1]], at, tail)
         # a choice between known constructors: the match distributes over the choice
         if sc[0] == "ite" and sc[2][0] == "ctor" and sc[3][0] == "ctor" and not any(a[1].get("guard") for a in arms):
             b1 = self.branch(lambda: self.ev_match_arms(sc[2], arms, at, tail))
@@ -699,9 +710,31 @@ class Sym:
         u = self.try_unwrap(v)
         if u is not None:
             return u
+        if v[0] == "call" and v[1] in ("Result::map", "Option::map") and len(v[3]) == 2:
+            # x.map(f)?  ==  f(x?)
+            return self.apply_value(v[3][1], [self.apply_try(v[3][0], at)], at)
         t = ("try", v)
         self.tries.append(t)
         return t
+
+    def apply_value(self, f, args, at):
+        """application of a function value to arguments: beta-reduction for effect-free lambdas, a constructor / call otherwise"""
+        if f[0] == "lam" and not f[3] and f[2] == len(args):
+            return self.subst_bv(f[4], f[1], args)
+        if f[0] == "path":
+            return ("call", f[1], (), tuple(args))
+        if f[0] == "ctor" and not f[2]:
+            return ("ctor", f[1], tuple(args))
+        return ("call", "apply", (), tuple([f] + list(args)))
+
+    def subst_bv(self, v, lvl, args):
+        if isinstance(v, tuple):
+            if len(v) == 3 and v[0] == "bv" and v[1] == lvl and isinstance(v[2], int):
+                return args[v[2]] if v[2] < len(args) else v
+            return tuple(self.subst_bv(x, lvl, args) for x in v)
+        if isinstance(v, list):
+            return [self.subst_bv(x, lvl, args) for x in v]
+        return v
 
     def try_unwrap(self, v, commit=True):
         """payload of `v?` when v is visibly Ok(..)/Some(..), a fresh row (marked `?`), or a choice between such values"""
@@ -1268,6 +1301,13 @@ class Sym:
             self.cur, self.env, self.lty, self.loops = saved_cur, saved_env, saved_lty, saved_loops
         exits = self.count_exits(eff)
         propagate = mode == "try" or (tail and returns_result and self.frames[-1].returns_result)
+        if exits["ret"] > 0 and not div:
+            # early `return v` under guards: the same function written without early returns nests the rest under the guard
+            # and yields a choice of values - rewrite to that form when every early return sits directly under a guard
+            r = self.desugar_returns(eff, val, returns_result)
+            if r is not None:
+                eff, val = r
+                exits = self.count_exits(eff)
         if exits["ret"] > 0 or (exits["fail"] > 0 and not propagate):
             # early `return ..` or failures that the caller does not simply propagate: the callee's rows form a scope whose
             # value is the callee's result (`fail e` inside it yields Err(e), `ret v` yields the value)
@@ -1299,6 +1339,33 @@ class Sym:
         if returns_result and propagate:
             return val
         return val
+
+    def desugar_returns(self, effs, tailval, returns_result):
+        def has_ret(es):
+            return self.count_exits(es)["ret"] > 0
+        for i, e in enumerate(effs):
+            if e[0] == "guard" and has_ret(e[2]):
+                div = e[2]
+                if not div or div[-1][0] != "ret" or has_ret(div[:-1]):
+                    return None
+                a = div[-1][1]
+                if returns_result:
+                    a = a[1] if a[0] == "try" else ("ctor", "Ok", (a,))
+                rest = self.desugar_returns(effs[i + 1:], tailval, returns_result)
+                if rest is None:
+                    return None
+                rest_effs, b = rest
+                out = list(effs[:i])
+                pre = list(div[:-1])
+                if rest_effs or pre:
+                    cc, sw = self.polarity(e[1])
+                    out.append(("if", cc, pre if sw else rest_effs, rest_effs if sw else pre, e[3]))
+                return out, self.mk_ite(e[1], b, a)
+            if e[0] in ("if", "match", "loop", "scope") and has_ret([e]):
+                return None
+            if e[0] == "ret":
+                return None
+        return list(effs), tailval
 
     def count_exits(self, eff):
         out = {"ret": 0, "fail": 0}
@@ -1516,7 +1583,55 @@ class Printer:
         del self.pending[:]
         self.rows.append((" & ".join(ctx) or "-") + " | " + text)
 
+    def fail_only(self, e):
+        """the single error kind (rendered) this effect can fail with, if it does nothing else"""
+        k = e[0]
+        if k == "fail":
+            return self.show(e[1])
+        subs = None
+        if k == "guard":
+            subs = [e[2]]
+        elif k == "if":
+            subs = [e[2], e[3]]
+        elif k == "match":
+            subs = [arm[2] for arm in e[2]]
+        if subs is None:
+            return None
+        kinds = set()
+        for es in subs:
+            for x in es:
+                r = self.fail_only(x)
+                if r is None:
+                    return None
+                kinds.add(r)
+        return kinds.pop() if len(kinds) == 1 else None
+
     def emit(self, eff, ctx):
+        # consecutive checks that only fail (with the same error) and have no operation between them commute
+        i = 0
+        out = []
+        while i < len(eff):
+            kind = self.fail_only(eff[i]) if eff[i][0] in ("guard", "if", "match") else None
+            j = i + 1
+            if kind is not None:
+                while j < len(eff) and eff[j][0] in ("guard", "if", "match") and self.fail_only(eff[j]) == kind:
+                    j += 1
+            if kind is not None and j - i >= 2:
+                groups = []
+                for e in eff[i:j]:
+                    sub = Printer(self.s, select=self.select)
+                    sub.opn, sub.loopn, sub.scopen, sub.seen_try, sub.nlam = self.opn, self.loopn, self.scopen, self.seen_try, self.nlam
+                    sub.emit1([e], ctx)
+                    groups.append(sub.pending + sub.rows)
+                for g in sorted(groups):
+                    self.rows.extend(self.pending)
+                    del self.pending[:]
+                    self.rows.extend(g)
+            else:
+                self.emit1(eff[i:j], ctx)
+            i = j
+
+    def emit1(self, eff, ctx):
         for e in eff:
             k = e[0]
             self.ctx = ctx
